@@ -76,7 +76,9 @@ func wktFloat(c *ctx) float64 {
 	case 5:
 		return math.Copysign(0, -1)
 	case 6:
-		return 1e21
+		// the values at the very ends of the finite range and of the plain-decimal range
+		return []float64{1e21, math.MaxFloat64, -math.MaxFloat64, math.Nextafter(math.MaxFloat64, 0), math.SmallestNonzeroFloat64,
+			-math.SmallestNonzeroFloat64, 1e21 - 131072, 999999.9999999999, 1e6, 4.9e-324 * 3}[c.rng.Intn(10)]
 	case 7:
 		return 0.0001
 	case 8:
